@@ -74,6 +74,7 @@ def run(ctx, rep):
     ellipse(prog, rep)
     sector(prog, rep)
     rounded(prog, rep)
+    rows_without_hit(prog, rep)
     # triangle: canonical edges in contains() and in the scanline intersection (shared with C19)
     c19.triangle_edges(prog, rep)
     rectangle(prog, rep)
@@ -383,3 +384,58 @@ def rectangle(prog, rep):
         seen += 1
         ok = ok and match(r, ("agg", "*Points::Points", (("call", "*Rectangle::columns", "_", (P(1, "rectangle"),)), ("call", "*Rectangle::rows", "_", (P(1, "rectangle"),)), ("field", ("call", "*Rectangle::columns", "_", (P(1, "rectangle"),)), 0)))) is not None
     rep.check(ok and seen >= 1, "R05.3", "rectangle:points-new", "Rectangle's point iterator must walk rectangle.columns() within rectangle.rows(), starting at columns().start", at=nw.span, fn=nw.path)
+
+
+# rows in which the search finds nothing: "cannot happen" beliefs, confirmed by reading, one line each
+ROW_ALWAYS_HIT = {
+    "circle": "every row of a circle's bounding box contains a point (diameter_to_threshold makes the circle touch all four sides, rows are contiguous: the C18 clauses) — the find() cannot fail",
+}
+
+
+def rows_without_hit(prog, rep):
+    """R05.4 the row searches behind points() (and behind the styled renderers): a row in which no column is accepted
+    must not END the enumeration — later rows may still contain points (narrow, tall ellipses have empty top rows).
+    On the path summaries (loops walked once): no path that has taken a row from `rows` returns None."""
+    for shape in ("circle", "ellipse", "rounded_rectangle"):
+        SL = PRIM + shape + "::points::Scanlines"
+        try:
+            nx = prog.method1(SL, "next", "core::iter::traits::iterator::Iterator")
+        except Exception as e:
+            rep.fail("R05.4", shape + ":empty-row", "anchor lost: %s" % e, status="undecided")
+            continue
+        if shape in ROW_ALWAYS_HIT:
+            rep.assume("R05.4 %s: %s" % (shape, ROW_ALWAYS_HIT[shape]))
+            continue
+        bad = []
+        n = 0
+        try:
+            if not hasattr(prog, "_c05_paths_once"):
+                prog._c05_paths_once = Paths(prog, loops="once")
+            for sm in prog._c05_paths_once.of(nx):
+                took = [fct for fct in sm.facts if fct[0] == "variant" and fct[2] == ("Some",) and fct[1][0] == "call" and fct[1][1].split("::")[-1] == "next"
+                        and any(n_[0] == "field" and n_[1] == P(1, "self") for n_ in walk(fct[1])) and "rows" in _field_names(prog, SL, fct[1])]
+                if not took:
+                    continue
+                n += 1
+                if sm.ret == ("agg", "core::option::Option::None", ()) and not any(x == CONTINUES for fct in sm.facts for y in fct[1:] if isinstance(y, tuple) for x in walk(y)):
+                    bad.append("after taking a row the enumeration ends when %s" % "; ".join(show_fact(x) for x in sm.facts if x not in took))
+        except Unsupported as e:
+            bad.append("cannot summarise: %s" % e)
+        rep.check(not bad and n >= 1, "R05.4", shape + ":empty-row", "a row without an accepted column must not end points(): %s" % "; ".join(sorted(set(bad))[:2]), at=nx.span, fn=nx.path)
+
+
+def _field_names(prog, adt, t):
+    """names of the fields of `adt` read from self anywhere in t"""
+    fields = prog.adts[adt]["variants"][0]["fields"]
+    out = set()
+    for n in walk(t):
+        if n[0] == "field" and n[1] == P(1, "self") and n[2] < len(fields):
+            out.add(fields[n[2]]["name"])
+        # nested: self.rounded_rectangle.rows
+        if n[0] == "field" and n[1][0] == "field" and n[1][1] == P(1, "self"):
+            inner = fields[n[1][2]]["ty"] if n[1][2] < len(fields) else None
+            if isinstance(inner, dict) and inner.get("adt") in prog.adts:
+                f2 = prog.adts[inner["adt"]]["variants"][0]["fields"]
+                if n[2] < len(f2):
+                    out.add(f2[n[2]]["name"])
+    return out
